@@ -90,7 +90,8 @@ fn run_generate(
     let mut config = if let Some(config_path) = config_file {
         // Explicit config file specified
         if config_path.exists() {
-            GenerateConfig::from_file(config_path)?
+            // Validated together with the CLI overrides below
+            GenerateConfig::from_file_unvalidated(config_path)?
         } else {
             return Err(format!("Configuration file not found: {}", config_path.display()).into());
         }
